@@ -38,7 +38,23 @@ def shards(tier: str, seed: int):
     ns = [1, 2, 5, 14, 15] if tier == "quick" else list(range(1, 16))
     out = [["grid", r, n] for r in rs for n in ns]
     out.append(["near"])
+    out.append(["lengths"])
     return out
+
+
+def sid_of_length(n: int) -> str:
+    """a well-formed SID string of exactly n characters (7 <= n <= 170): 'S-1-5' + up to 15 sub-authorities"""
+    body = n - 5
+    parts: t.List[str] = []
+    while body > 0:
+        take = min(11, body)
+        if body - take == 1:  # never leave a lone '-'
+            take -= 1
+        parts.append("-" + "4000000009"[: take - 1])
+        body -= take
+    s_ = "S-1-5" + "".join(parts)
+    assert len(s_) == n and 1 <= len(parts) <= 15, (n, s_)
+    return s_
 
 
 def _sd(s: str) -> bytes:
@@ -185,6 +201,45 @@ def case_near(name: str, s: str):
 
 
 def run_shard(shard, tier, seed, acc) -> None:
+    if shard[0] == "lengths":
+        # well-formed SID strings of EVERY length 7..170 through the descriptor codec and through protect -> blob -> unprotect: the target SD
+        # is the reference one and the blob carries the string unchanged (every length form of the DER headers around it is met)
+        import dpapi_ng
+
+        from env import seams
+        from ref import cms
+
+        d_ = seams.Drbg(("C08len",))
+        rk = seams.make_root(d_, "SHA256")
+        cache = seams.make_cache(rk)
+        for n in range(7, 171):
+            sid_s = sid_of_length(n)
+            acc.ev()
+            acc.nt(("len", n))
+            v, sd = case_grid(sid_s)
+            if v:
+                acc.violate("lengths." + v[0], ["lengths", n], v[1], size=n)
+                continue
+            for api in ("sync", "async"):
+                try:
+                    with seams.clock(134270280000000777):
+                        if api == "sync":
+                            blob = bytes(dpapi_ng.ncrypt_protect_secret(b"len", sid_s, root_key_identifier=rk.rkid, cache=cache))
+                            back = bytes(dpapi_ng.ncrypt_unprotect_secret(blob, cache=cache))
+                        else:
+                            from mc import vloop
+
+                            blob = bytes(vloop.run(dpapi_ng.async_ncrypt_protect_secret(b"len", sid_s, root_key_identifier=rk.rkid, cache=cache)))
+                            back = bytes(vloop.run(dpapi_ng.async_ncrypt_unprotect_secret(blob, cache=cache)))
+                    stored = cms.decode(blob).sid
+                    if back != b"len" or stored != sid_s or cms.ref_decrypt(rk, blob) != b"len":
+                        acc.violate("lengths.blob", ["lengths", n, api], {"sid": sid_s, "stored": stored, "roundtrip": back == b"len"}, size=n)
+                    else:
+                        acc.outcome("lengths-ok")
+                except Exception as e:  # noqa: BLE001
+                    acc.violate(f"lengths.exc.{type(e).__name__}", ["lengths", n, api], {"sid": sid_s, "exc": repr(e)[:200]}, size=n)
+        acc.sample({"SID strings of every length": [7, 170], "example": sid_of_length(128)})
+        return
     if shard[0] == "grid":
         _, r, n = shard
         for a in AUTHS:
@@ -250,6 +305,14 @@ def replay(case, seed, acc) -> None:
         v, _ = case_grid(case[3])
         if v:
             v = ("after-near-miss." + v[0], v[1])
+    elif case[0] == "lengths":
+        run_shard(["lengths"], "quick", seed, acc)
+        for kk in list(acc.violations):
+            acc.violations[kk] = [e for e in acc.violations[kk] if e["case"] == case]
+            if not acc.violations[kk]:
+                del acc.violations[kk]
+        acc.violation_count = sum(len(x) for x in acc.violations.values())
+        return
     elif case[0] == "near":
         v = case_near(case[1], case[2])
         if v:
